@@ -1,4 +1,7 @@
 import Cactus.Lemmas.CollectLayout
+import Cactus.Lemmas.History.Main
+import Cactus.Lemmas.History.Hints
+import Cactus.Lemmas.History.Example
 import Cactus.Lemmas.GroupOrder
 import Cactus.Lemmas.Layout
 import Cactus.Lemmas.Basic
@@ -63,8 +66,8 @@ Two states that differ only by a permutation of the entries inside link tables (
 take the same orphan decision at every drop, with the same member *set*; and for programs that
 record every stored handle (`Full`) the values of a collected group hold strong handles only to
 members of the group, so the one remaining layout dependence — the order in which the group's
-values are destroyed — only ever drops inert handles (C16).  Not proved: a step-level
-bisimulation up to permutation of the event log for whole histories (labelled partial). -/
+values are destroyed — only ever drops inert handles (C16).  The lift to whole histories is
+`C09_whole_histories` at the end of this file. -/
 
 theorem C09_same_decision_under_every_layout : type_of% @cycleRefs_layout := @cycleRefs_layout
 theorem C09_same_members_under_every_layout : type_of% @group_members_layout := @group_members_layout
@@ -99,13 +102,55 @@ where it was, in **equal heaps** (so every count observable afterwards is equal)
 tables of the program, no error, and event logs that are permutations of each other (the same
 objects destroyed and released; only the order inside the group differs).  Together with
 `C09_same_decision_under_every_layout` (table order changes neither the decision nor the member
-set) this is the property for one collecting operation; what is still not proved is the lift to
-whole histories (an induction over operations carrying "equal up to table order and log order"). -/
+set) this is the property for one collecting operation; the lift to whole histories follows below. -/
 
 theorem C09_collection_layout_independent : type_of% @collection_layout_independent :=
   @collection_layout_independent
 theorem C09_collected_values_hold_only_dead_handles : type_of% @collected_values_hold_dead_handles :=
   @collected_values_hold_dead_handles
 theorem C09_full_implies_contract : type_of% @full_contract := @full_contract
+
+
+/-! ## Whole histories (`Cactus.Lemmas.History.*`)
+
+The property at full strength for the programs it is about.  Two histories are the *same program
+under two layouts* (`SameProgram`) when they are equal after deleting every `shuffle`
+pseudo-operation (a `shuffle` permutes the entries of one link table, i.e. changes hash-map
+iteration order) — the hints (which order the members of a collected group are destroyed in, i.e.
+what allocation addresses decide in the implementation) are arbitrary on both sides.  For every
+program whose operations are `fullQuiet` — stored strong handles are created and removed through
+`link` (adopt + store) and `unlink` (take + unadopt), so every handle stored in a live value is
+recorded; no destructor scripts, no panicking destructors; 20 of the 30 actions — and whose run
+under the first layout ends without error:
+
+* the run under the second layout ends without error too (with the same step budget: both runs
+  take exactly the same number of machine steps), and
+* the final states are equal up to the order of entries inside link tables and up to a permutation
+  of the event log (`LayoutEqL`): every strong and weak count, which objects are live, destroyed or
+  released, every value, the contents of every link table as a map, and all handle tables of the
+  program are **equal**; the same values were destroyed and the same allocations released
+  (`destroyedVids`, `freedIds` are permutations of each other).
+
+`C09_whole_histories_example`: a machine-checked pair of histories to which the theorem applies and
+whose logs and heaps really differ as lists (the group is destroyed as `[2,1,0,3]` under one layout
+and `[3,1,2,0]` under the other).  Not covered (hence outside `fullQuiet`): `makeMut` (its clone
+branch breaks `Full`: machine-checked counterexample in `Cactus.Lemmas.History.Example`), bare
+`adopt/unadopt/store/take`, destructor scripts and panics — for those the one-collection theorems
+above are what is proved. -/
+
+theorem C09_whole_histories : type_of% @history_layout_independent := @history_layout_independent
+theorem C09_whole_histories_any_step_budget : type_of% @history_layout_independent_fuel :=
+  @history_layout_independent_fuel
+theorem C09_hints_only : type_of% @history_hint_independent := @history_hint_independent
+theorem C09_same_strong_counts : type_of% @history_strong_counts := @history_strong_counts
+theorem C09_same_weak_counts : type_of% @history_weak_counts := @history_weak_counts
+theorem C09_same_live_objects : type_of% @history_live := @history_live
+theorem C09_same_released_and_values : type_of% @history_freed_value := @history_freed_value
+theorem C09_same_tables_as_maps : type_of% @history_tables := @history_tables
+theorem C09_same_program_handles : type_of% @history_handles := @history_handles
+theorem C09_same_values_destroyed : type_of% @history_destroyed := @history_destroyed
+theorem C09_same_allocations_released : type_of% @history_freedIds := @history_freedIds
+theorem C09_whole_histories_example : type_of% @HistoryExample.applies := @HistoryExample.applies
+theorem C09_example_orders_differ : type_of% @HistoryExample.logs_differ := @HistoryExample.logs_differ
 
 end Cactus
